@@ -415,6 +415,10 @@ def step (L : Led) : Ev → Led
   | .destroyPeers => { L with peers := L.peers.filter (fun p => p.2 ≠ .jet) }
   | .destroyConns => { L with peers := L.peers.filter (fun p => p.2 ≠ .http) }
 
+/-- no connection was accepted (and made a peer) in this trace -/
+def noPeerAccepted (tr : List Ev) : Bool :=
+  tr.all (fun e => match e with | .peer _ _ => false | _ => true)
+
 def ledOf (tr : List Ev) : Led := tr.foldl step {}
 
 def K.led (k : K) : Led := ledOf k.tr
